@@ -424,6 +424,10 @@ extern "C" {
     fn clock_gettime(clock_id: i32, tp: *mut Timespec) -> i32;
 }
 
+pub fn current_tid() -> usize {
+    unsafe { pthread_self() }
+}
+
 /// CPU time (user + system, milliseconds) consumed so far by the thread `tid` (a pthread_t of a
 /// thread that is still alive: the workers of run_cases never exit).
 fn thread_cpu_ms(tid: usize) -> Option<u64> {
@@ -481,6 +485,13 @@ pub fn run_cases(area: &Area, cmds: &[String], dir: &str, dist: &Dist) {
                         std::hint::black_box(0);
                     }
                 }
+                if i == 1 && std::env::var("LZVERIF_SELFTEST_RUNAWAY").is_ok() {
+                    // self-test of the allocation guard: the second case allocates forever
+                    let mut v: Vec<Vec<u8>> = Vec::new();
+                    loop {
+                        v.push(Vec::with_capacity(256 << 20));
+                    }
+                }
                 let r = match catch_unwind(AssertUnwindSafe(|| exec(&parts))) {
                     Ok(r) => r,
                     Err(_) => ("HARNESS-PANIC".to_string(), "FAIL harness panic".to_string()),
@@ -500,24 +511,29 @@ pub fn run_cases(area: &Area, cmds: &[String], dir: &str, dist: &Dist) {
     while done.load(Ordering::SeqCst) < n {
         std::thread::sleep(std::time::Duration::from_millis(50));
         let t = now();
-        let stuck: Vec<usize> = slots.lock().unwrap().iter().filter_map(|s| {
+        let stuck: Vec<(usize, bool)> = slots.lock().unwrap().iter().filter_map(|s| {
             let c = s.0.load(Ordering::SeqCst);
             if c == 0 {
                 return None;
             }
             let cpu = thread_cpu_ms(s.2.load(Ordering::SeqCst)).unwrap_or(0).saturating_sub(s.3.load(Ordering::SeqCst));
             // the slot may have moved on to another case in between: then it is re-examined next round
-            if s.0.load(Ordering::SeqCst) == c && (cpu > CASE_TIMEOUT_S * 1000 || t.saturating_sub(s.1.load(Ordering::SeqCst)) > CASE_WALL_TIMEOUT_S) {
+            let frozen = crate::areas::a_memusage::is_frozen(s.2.load(Ordering::SeqCst));
+            if s.0.load(Ordering::SeqCst) == c && (frozen || cpu > CASE_TIMEOUT_S * 1000 || t.saturating_sub(s.1.load(Ordering::SeqCst)) > CASE_WALL_TIMEOUT_S) {
                 s.0.store(0, Ordering::SeqCst);
-                Some(c - 1)
+                Some((c - 1, frozen))
             } else {
                 None
             }
         }).collect();
-        for i in stuck {
+        for (i, frozen) in stuck {
             let mut g = results[i].lock().unwrap();
             if g.is_none() {
-                *g = Some(("TIMEOUT".to_string(), format!("FAIL the call did not return within {CASE_TIMEOUT_S} s of CPU time (hang)")));
+                *g = Some(if frozen {
+                    ("RUNAWAY".to_string(), "FAIL the call allocates without bound (more than 8 GiB live; the thread was frozen)".to_string())
+                } else {
+                    ("TIMEOUT".to_string(), format!("FAIL the call did not return within {CASE_TIMEOUT_S} s of CPU time (hang)"))
+                });
                 done.fetch_add(1, Ordering::SeqCst);
                 drop(g);
                 spawn_worker();
